@@ -120,6 +120,8 @@ def group_runs(g, tier):
         ]
     if g == 'hostile':
         return [dict(kind='hostile', cfgs='alt(zr,mem);alt(zr/zs,phys);alt(zr,alt(zs,mem));alt(zr/zs/zt,ovl(mem,mem));phys;alt(zr,phys);alt(zr,ovl(phys,mem))', sample=150 if q else 5000, tspec='Trace_Confine')]
+    if g == 'hostiledir':
+        return [dict(kind='hostiledir', cfgs='phys;alt(zr,phys);ovl(phys,mem);ovl(mem,phys);alt(zr/zs,ovl(phys,phys))', tspec='Trace_Confine')]
     if g == 'times':
         T = 'set_time,append_file,create_file,create_dir,remove_file'
         k = 1 if q else 25
@@ -226,6 +228,10 @@ def run_group(g, tier, seed, use_cache=True):
             mcs['MC_Join_q'] = mc
             cases = ensure_lts('MC_Join_q', 'MC_Join_q_emit', tags=('CASE',))
             s = harness(['hostile', '--cfgs', r['cfgs'], '--cases', cases, '--seed', seed, '--sample', r['sample'], '--out', out])
+        elif r['kind'] == 'hostiledir':
+            mc = run_mc('MC_Join_q', 'MC_Join_q')
+            mcs['MC_Join_q'] = mc
+            s = harness(['hostiledir', '--cfgs', r['cfgs'], '--out', out])
         elif r['kind'] == 'emb':
             mc = run_mc('MC_ReadOnly', 'MC_ReadOnly')
             if not mc['ok']:
@@ -359,7 +365,7 @@ PROPS = {
     'C03': dict(groups=['tree', 'alt', 'ovl']),
     'C05': dict(groups=['tree', 'alt', 'ovl']),
     'C12': dict(groups=['tree', 'alt', 'ovl', 'join']),
-    'C13': dict(groups=['tree', 'alt', 'ovl', 'join', 'handles', 'hostile', 'emb']),
+    'C13': dict(groups=['tree', 'alt', 'ovl', 'join', 'handles', 'hostile', 'hostiledir', 'emb']),
     'C07': dict(groups=['alt', 'hostile']),
     'C08': dict(groups=['ovl']),
     'C09': dict(groups=['ovl']),
